@@ -202,12 +202,10 @@ class Ghost:
         if conc:
             # the known AWORSet defect needs a third update of the element (later or stale) besides the concurrent pair
             return "concurrent-add-remove" if len(evs) >= 3 else "concurrent-pair-only"
-        # no add is concurrent with a remove. Proved class (coq: aw_removes_ordered => convergence + read semantics):
-        # no remove is concurrent with any update of the element; the rest (concurrent removes only) is not
-        # covered by a theorem. A failure in either class is a VIOLATION.
-        rr = [(x, y) for x in evs for y in evs if x < y
-              and self.events[x]["arg"][0] == REM and self.events[y]["arg"][0] == REM and not hb(x, y) and not hb(y, x)]
-        return "concurrent-removes-only" if rr else "removes-ordered"
+        # no add of the element is concurrent with a remove of it: the class proved convergent with the add-wins read
+        # semantics (coq: aworset_convergence_addrem_ordered / aworset_read_addrem_ordered) - exactly the complement of the
+        # known-finding class. A failure here contradicts the theorem + tie: VIOLATION.
+        return "addrem-ordered"
 
 
 def oracle(case, res, ts):
@@ -432,8 +430,9 @@ MANIFEST = {
              "vector-clock order independently of iteration order, merge_comm, merge_idem, write_inflationary, order_irrelevant, gob_preserves, "
              "read = add entries, reachable_wf; strong convergence and associativity are REFUTED (aworset_convergence_refuted, "
              "aworset_merge_assoc_refuted: witnesses by vm_compute, replayed on the Go code) and recorded as known findings; "
-             "positive partial theorems aworset_convergence_partial_wide / aworset_read_partial_wide for every history in which no remove is "
-             "concurrent with another update of the same element (concurrent adds allowed; contains aw_sequential), "
+             "positive theorems aworset_convergence_addrem_ordered / aworset_read_addrem_ordered for EVERY history in which no add of an element is "
+             "concurrent with a remove of it (adds may be concurrent with adds, removes with removes): exactly the complement of the known-finding "
+             "class; contains aw_removes_ordered and aw_sequential, "
              "and aworset_merge_assoc_partial on states with comparable entries."),
     "level_note": ("Trusted: Coq kernel; the hand-written model (tie = differential testing on 240 quick / 6000 thorough histories, so a code "
                    "change is caught only if a generated history reaches it); tla.Value identifiers abstracted to Z; gob primitives; time.Now as oracle. "
